@@ -397,12 +397,21 @@ impl RLN {
     /// Input values are:
     /// - `input_data`: a reader for the serialization of multiple leaf values (serialization done with [`rln::utils::vec_fr_to_bytes_le`](crate::utils::vec_fr_to_bytes_le))
     #[cfg(not(feature = "stateless"))]
-    pub fn init_tree_with_leaves<R: Read>(&mut self, input_data: R) -> Result<()> {
-        // reset the tree
+    pub fn init_tree_with_leaves<R: Read>(&mut self, mut input_data: R) -> Result<()> {
+        // We read input
+        let mut leaves_byte: Vec<u8> = Vec::new();
+        input_data.read_to_end(&mut leaves_byte)?;
+
+        let (leaves, _) = bytes_le_to_vec_fr(&leaves_byte)?;
+
+        // The leaves are set on a fresh tree, which replaces the current one only if they fit
         // NOTE: this requires the tree to be initialized with the correct height initially
         // TODO: accept tree_height as a parameter and initialize the tree with that height
-        self.set_tree(self.tree.depth())?;
-        self.set_leaves_from(0, input_data)
+        let mut tree = PoseidonTree::default(self.tree.depth())?;
+        tree.override_range(0, leaves.into_iter(), [].into_iter())
+            .map_err(|_| Report::msg("Could not set leaves"))?;
+        self.tree = tree;
+        Ok(())
     }
 
     /// Sets multiple leaves starting from position index in the internal Merkle tree.
